@@ -319,3 +319,57 @@ PROPS["C24"]["functions"][0] = ("radix_common::math::Decimal::{checked_add, chec
                                 "reference)")
 PROPS["C24"]["outside"] += ("; checked_neg/checked_abs/ordering (Kani harness exists, not calibrated); conversions "
                             "from primitive integers and Decimal<->PreciseDecimal")
+
+
+# ---------------------------------------------------------------------------------------------------------------
+# round 3: Engine-M jobs on radix-engine kernels (MIR of radix-engine + radix-common, native replay via verif_* shims)
+MIR_TB_ENGINE = MIR_TB + ["IndexMap modelled as an insertion-ordered entry list of concrete length for the "
+                          "into_iter().map(f).collect::<Result<IndexMap,_>>() pipeline (models.py)"]
+
+PROPS["C41"] = dict(
+    title="Liquidity pools stay solvent and fair",
+    functions=["radix_engine::blueprints::pool::v1::v1_1::{OneResourcePoolBlueprint, TwoResourcePoolBlueprint, "
+               "MultiResourcePoolBlueprint}::calculate_amount_owed (private; MIR executed directly, native replay "
+               "through the verif_* shims) including the per-entry closures of the two/multi pools",
+               "the radix-common code they call: PreciseDecimal::{from(Decimal), checked_div, checked_mul}, "
+               "Decimal::try_from(PreciseDecimal), Decimal::checked_round, I192/I256/I512 wrappers"],
+    bounds="every non-negative 192-bit pool-unit amount, total supply and reserve amount; divisibility enumerated "
+           "(quick: a subset per pool, thorough: 0..=18); two/multi pools with a reserves map of 2 entries (3 in "
+           "thorough for multi), every entry symbolic",
+    outside="contribute (its ratio arithmetic sits inside SystemApi-driven code), protected_deposit/withdraw, the "
+            "vault/bucket/resource-manager calls around calculate_amount_owed in redeem/get_redemption_value, v1_0 "
+            "logic (superseded), reserves maps with more entries, divisibility > 18 (rejected by checked_round's "
+            "assert; resources cannot have it)",
+    assumptions=["amounts are non-negative (pool-unit bucket amounts, total supply and vault balances)",
+                 "bnum primitives as in the library model table",
+                 "IndexMap iteration = insertion order over distinct keys (entry-list model)"],
+    trusted_base=MIR_TB_ENGINE,
+    mir=True,
+)
+
+PROPS["C42"] = dict(
+    title="Validator staking and emissions never create value",
+    functions=["radix_engine::blueprints::consensus_manager::ValidatorBlueprint::calculate_stake_unit_amount",
+               "radix_engine::blueprints::consensus_manager::create_sort_prefix_from_stake (incl. Decimal::checked_powi, "
+               "checked_div, I192 -> u16 conversion from radix-common's MIR)"],
+    bounds="every non-negative 192-bit XRD amount / total stake / stake-unit supply; every non-negative 192-bit stake "
+           "for the sort prefix; checked_powi recursion unrolled for the concrete exponent 18",
+    outside="calculate_redemption_value (reads the vault and the resource manager through SystemApi), unstake/claim "
+            "bookkeeping, emission and reward distribution loops, validator-set selection in epoch_change: only the "
+            "stake-unit pricing and the sort-key helper are decided",
+    assumptions=["amounts are non-negative", "bnum primitives as in the library model table"],
+    trusted_base=MIR_TB,
+    mir=True,
+)
+
+PROPS["C44"] = dict(
+    title="Consensus time and rounds only move forward",
+    functions=["radix_engine::blueprints::consensus_manager::ConsensusManagerBlueprint::milli_to_minute"],
+    bounds="every i64 millisecond timestamp",
+    outside="check_non_decreasing_and_update_timestamps / next_round / epoch_change (SystemApi field I/O), round "
+            "progress, compare_current_time: only the minute-rounding kernel is decided (exact trunc-division, "
+            "hence monotone)",
+    assumptions=[],
+    trusted_base=MIR_TB,
+    mir=True,
+)
